@@ -51,7 +51,7 @@ func TestC35Sequential(t *testing.T) {
 			effCap = DefaultLRUCapacity
 			universe = effCap + rapid.IntRange(1, 4).Draw(rt, "extraKeys")
 		} else {
-			universe = capArg + rapid.IntRange(-1, 3).Draw(rt, "extraKeys")
+			universe = capArg + rapid.SampledFrom([]int{1, 1, 2, 2, 3, 3, 0, -1}).Draw(rt, "extraKeys")
 			if universe < 1 {
 				universe = 1
 			}
